@@ -57,6 +57,30 @@ CHECKS.update({
          "'Every byte sequence' is decided only for the enumerated neighbourhoods and products. One open known finding (failed auto-detection never reaches ErrNoMorePackets).", "5 C03"),
 })
 
+CHECKS.update({
+ "C09": (FE, "exhaustive fault-position enumeration on reference-encoded sections (every bit flip, byte substitution, burst 2..32 bits at every offset, truncation, extension) judged by an independent section validator; exhaustive enumeration of a bounded family of Muxer PMT contents validated by the same decoder",
+         "For each of six base units (PAT, PMT, 2-section SDT, NIT, 2-packet EIT, TOT) every listed corruption is delivered to the real Demuxer on the proper PID: a table may be delivered only if the reference validator (framing + bit-serial CRC-32) accepts its section and then with unaltered content, and a unit the reference accepts completely must be delivered. Mux side: 1..40 streams and every descriptor model that fits (struct Length correct / 0 / wrong): section_length must equal the bytes written, CRC must verify, bytes must equal the reference encoding.",
+         "A corruption producing a different section with a valid CRC (2^-32) is counted as undecidable, not judged.", "5 C09"),
+ "C10": (MC, "explicit enumeration of the CRC register's transition relation (state x input byte) on the real update function against a bit-serial LFSR; all messages of length 0..2; every split point of a message family",
+         "The checksum register is a 2^32-state, 256-input transition system: quick enumerates all 2^32 states for byte 0 plus all top bytes x 2^12 low patterns x all 256 bytes; thorough adds 2^24 stratified states x 256 bytes and then walks the complete 2^40 relation byte by byte under the budget. One-step agreement for all pairs implies agreement for every byte string (induction on length); chunking and residue are checked directly.",
+         "Uses the verif hooks VerifUpdateCRC32 / VerifComputeCRC32 / VerifCRC32Table. Reference: one-bit-per-step LFSR.", "5 C10"),
+ "C11": (EX, "bounded-exhaustive enumeration of the TS header and adaptation-field model space, each model checked in three directions (reference bytes -> parse, model -> write vs reference bytes, parse -> write identity) through hooks and through NextPacket / Muxer.WritePacket",
+         "All PIDs x counters x afc (quick) / the full 12.6 M header product (thorough); all 144 adaptation-field shapes x 8 indicator sets x every stuffing length, every field over its boundary alphabet alone and every pair over 3-value alphabets; adaptation_field_length 0.",
+         "Adaptation extension without trailing reserved bytes; consistent struct inputs.", "5 C11"),
+ "C12": (EX, "bounded-exhaustive enumeration of the PES header model space (all stream ids, all 1632 structural shapes, every field over its alphabet incl. all 256 trick bytes and all 2^16 CRC values) decoded from / encoded against the reference; stratified 2^25 (quick) or all 2^33 (thorough) timestamps; Duration() against exact integer arithmetic",
+         "Decode through parsePESData and NextData, encode through writePESHeader and Muxer.WriteData reassembly; payload boundaries for PES_packet_length 0 / exact / shorter / longer.",
+         "Pack header outside the decode domain; CRC / pack header / header stuffing outside the encode domain. One open known finding (stream ids without optional header other than 0xBE/0xBF).", "5 C12"),
+ "C13": (EX, "bounded-exhaustive enumeration of table models for the six table types, reference-encoded, demuxed by the real Demuxer and compared field for field; generic header fields through the parsePSIData hook; PAT/PMT writer compared byte for byte",
+         "Loop counts 0,1,2,3 and fill-to-limit, descriptor loops of 0..2 kinds, every id field over {0, max, alternating, each single bit}, all table_id variants (34 EIT ids), all 32 versions, pointer fields, 2- and 3-section units.",
+         "Descriptors inside tables from a pool of 8 kinds (descriptor space: C14).", "5 C13"),
+ "C14": (EX, "bounded-exhaustive enumeration of descriptor models per tag (23 typed + unknown + user-defined), decoded from and encoded against the reference with the struct Length correct / 0 / wrong; all ordered tag pairs and triples in one loop; malformed declared lengths with a sentinel",
+         "Every variable part over every length up to the 255-byte limit, all flag subsets, 0..max loop items; descriptor_length and the enclosing 12-bit loop length must always equal the bytes emitted; a malformed body must never shift the following descriptor.",
+         "Domain notes in DESIGN.md C14 (bitrate multiples of 50, teletext pages 0..99, single-entry ISO 639).", "5 C14"),
+ "C15": (EX, "exhaustive enumeration of the value domain: all 50 457 MJD values, all 86 400 times of day on 554 boundary days, all BCD durations, all raw 16/24-bit patterns; thorough: all days x all seconds",
+         "Decode and encode of every value are compared with integer day counting from 1858-11-17 and digit-wise BCD.",
+         "UTC times. Uses the dvb.go hooks.", "5 C15"),
+})
+
 NOT_YET = {}
 
 def main():
